@@ -5,6 +5,8 @@ from __future__ import annotations
 import multiprocessing as mp
 import random
 import re
+import sys
+from contextlib import contextmanager
 
 from . import common as C
 from . import gast
@@ -47,12 +49,23 @@ def _init():
     _pest = C.import_pest()
 
 
+@contextmanager
+def default_recursion_limit():
+    """./check raises the recursion limit for its own needs; the library is observed under CPython's default."""
+    old = sys.getrecursionlimit()
+    sys.setrecursionlimit(1000)
+    try:
+        yield
+    finally:
+        sys.setrecursionlimit(old)
+
+
 def observe_load(text: str) -> dict:
     """Load `text` with optimizer=None and with the default optimizer; total."""
     out = {}
     for key, opt in (("none", None), ("default", "default"), ("debug", "debug")):
         try:
-            with M.watchdog(20):
+            with M.watchdog(20), default_recursion_limit():
                 p = _pest.Parser.from_grammar(text, optimizer=M.optimizer_for(_pest) if opt else None, debug=opt == "debug")
             o = {"class": "parser"}
             if key == "none":
@@ -85,6 +98,56 @@ def observe_load(text: str) -> dict:
 
 def observe_many(texts):
     return [observe_load(t) for t in texts]
+
+
+def observe_many_default_limits(texts):
+    """As observe_many, under CPython's default recursion limit (./check raises it for its own needs; users do not)."""
+    import sys  # noqa: PLC0415
+
+    import resource  # noqa: PLC0415
+
+    # a count that is not rejected would be unrolled eagerly: keep a runaway allocation from taking the machine down
+    # (it then ends in MemoryError, which is reported as the violation it is)
+    resource.setrlimit(resource.RLIMIT_AS, (12 << 30, 12 << 30))
+    old = sys.getrecursionlimit()
+    sys.setrecursionlimit(1000)
+    try:
+        return [observe_load(t) for t in texts]
+    finally:
+        sys.setrecursionlimit(old)
+
+
+def stress_texts() -> list[str]:
+    """Long chains, deep nesting, huge numbers, lone surrogates: legal or illegal, loading must stay total (C11)."""
+    out = []
+    for n in (200, 600, 1500):
+        out.append("a = { " + " | ".join(f'"k{i}"' for i in range(n)) + " }")
+        out.append("a = { " + " ~ ".join(f'"k{i}"' for i in range(n)) + " }")
+        out.append("a = { " + " | ".join(f'"k{i}" ~ b' for i in range(n)) + ' }\nb = { "x" }')
+        out.append("a = { " + " ~ ".join(f'("k{i}" | b)' for i in range(n)) + ' }\nb = { "x" }')
+        out.append("\n".join(f'r{i} = {{ "k{i}" }}' for i in range(n)))
+    for d in (100, 400, 1200):
+        out.append("a = { " + "(" * d + '"x"' + ")" * d + " }")
+        out.append("a = { " + "!" * d + '"x" }')
+        out.append("a = { " + "&!" * (d // 2) + '"x" }')
+        out.append("a = { " + "PUSH(" * d + '"x"' + ")" * d + " }")
+        out.append('a = { "x"' + "*" * d + " }")
+        out.append('a = { "x"' + "?" * d + " }")
+        out.append('a = { "x"' + "{1}" * d + " }")
+        out.append("a = { " + '("x" ~ ' * d + '"y"' + ")" * d + " }")
+        out.append("a = { " + "(" * d + '"x"')  # unterminated
+        out.append("/*" * d + "*/" * d + ' a = { "x" }')
+    big = ["4294967296", "99999999999", "9" * 23, "1" * 4301, "0" * 30 + "2", "0" * 4400 + "1"]
+    for b in big:
+        for form in ('"a"{%s}', '"a"{%s,}', '"a"{,%s}', '"a"{1,%s}', '"a"{%s,%s}', "PEEK[%s..]", "PEEK[..%s]", "PEEK[-%s..]", "PEEK[..-%s]"):
+            out.append("r = { " + form.replace("%s", b) + " }")
+    sur = "\ud800"
+    for body in ('"%s"', '"\\x%sa"', '"\\u{%s41}"', "'%s'..'z'", '^"%s"', 'PUSH_LITERAL("%s")', "%s", '"a" ~ %s', "#%s = a", '"a" // %s', '"a" /* %s */', '"a"{%s}', "PEEK[%s..]"):
+        out.append("r = { " + body.replace("%s", sur) + " }")
+    out.append(f"r{sur} = {{ \"a\" }}")
+    out.append(f"//! {sur}\nr = {{ \"a\" }}")
+    out.append(f"/// {sur}\nr = {{ \"a\" }}")
+    return out
 
 
 def gather_texts(tier: str, rep: C.Report) -> tuple[list[str], dict]:
@@ -127,6 +190,9 @@ def gather_texts(tier: str, rep: C.Report) -> tuple[list[str], dict]:
     for t in base:
         cuts = sorted({rnd.randrange(len(t) + 1) for _ in range(4 if not thorough else 10)}) if t else []
         add("prefixes", [t[:c] for c in cuts])
+    # long flat chains (keyword lists): valid pest, must load under the default recursion limit
+    add("long-chains", ["a = { " + " | ".join(f'"k{i}"' for i in range(600)) + " }", "a = { " + " ~ ".join(f'"k{i}"' for i in range(600)) + " }",
+                        "a = { " + " | ".join(f'"k{i}" ~ b' for i in range(300)) + ' }\nb = { "x" }'])
     seen, uniq = set(), []
     for t in texts:
         if t not in seen:
